@@ -163,7 +163,20 @@ pub fn eval(op: &str, a: &[&str]) -> Option<String> {
             let c = match load_full(&text) { Ok(c) => c, Err(e) => return Some(format!("FAIL not a checked program: {}", e)) };
             let o1 = compile_target(a[0], &c); let o2 = compile_target(a[0], &c);
             let c2 = load_full(&text).ok()?; let o3 = compile_target(a[0], &c2);
-            if o1 != o2 || o1 != o3 { "FAIL output differs between runs".into() } else { "ok".into() }
+            if o1 != o2 || o1 != o3 { return Some("FAIL output differs between runs".into()); }
+            // JavaScript / TypeScript: no name is defined twice (each of the two JavaScript factories is its own scope)
+            if a[0] == "js" || a[0] == "ts" {
+                let code = strip(&o1, a[0]);
+                for part in (if a[0] == "js" { code.split("export const ").collect::<Vec<_>>() } else { vec![code.as_str()] }) {
+                    let toks: Vec<&str> = part.split(|c: char| !(c.is_alphanumeric() || c == '_' || c == '$')).filter(|t| !t.is_empty()).collect();
+                    let mut declared: Vec<&str> = vec![];
+                    for w in toks.windows(3) {
+                        let d = if a[0] == "js" { if w[0] == "const" { Some(w[1]) } else { None } } else if w[0] == "export" && (w[1] == "type" || w[1] == "interface") { Some(w[2]) } else { None };
+                        if let Some(d) = d { if declared.contains(&d) { return Some(format!("FAIL {} is defined twice", d)); } declared.push(d); }
+                    }
+                }
+            }
+            "ok".into()
         }
         "p.c19.inject" => {
             // nothing taken from a comment or a quoted name ends up as code: the marker never survives removing comments and strings
